@@ -130,7 +130,7 @@ class ProgressIndicator(object):
 
         try:
             yield self
-        except (Exception, KeyboardInterrupt):
+        except BaseException:
             self._io.write_line("")
 
             self._auto_running.set()
